@@ -20,7 +20,8 @@ RULE = (
     "up to 10^6). part random: Hypothesis tracks at random resolutions with gaps concentrated at "
     "thr-1/thr/thr+1, random flags and lane combinations at random positions. Oracle: tap -> TAP; else "
     "first note STRUM; else natural HOPO iff (<= 1 lane) and (note != previous) and (gap <= thr); forced "
-    "flips natural. Non-trivial iff the gap is in {thr-1, thr, thr+1} or forced or a chord is involved; "
+    "flips natural; sustains (written on the notes in extra table tracks and in the random part) must not "
+    "matter: distance is start to start. Non-trivial iff the gap is in {thr-1, thr, thr+1} or forced or a chord is involved; "
     "distinct key = (res, gap-thr, previous, current, flags), counted by construction in the table."
 )
 ASSUMPTIONS = [
@@ -77,10 +78,15 @@ def distances(res: int) -> list[int]:
 def check_table(ctx: Ctx, case) -> None:
     """case: {"res", "d", "tap", "forced"}; the track is the de Bruijn sequence at spacing d."""
     res, d, tap, forced = case["res"], case["d"], case["tap"], case["forced"]
+    smode = case.get("sustain", 0)
+    thr0 = hopo_threshold(res)
+    # sustains must not influence the rule (distance is start to start): mode 1 ends each note one
+    # tick before the next start, mode 2 lets it overlap the next note by a threshold
+    sus = 0 if smode == 0 else max(d - 1, 0) if smode == 1 else d + thr0 + 1
     seq = _pair_sequence()
     items = []
     for i, mask in enumerate(seq):
-        items += G.render_note_items(i * d, mask, [0] * 5 if mask else 0,
+        items += G.render_note_items(i * d, mask, [sus] * 5 if mask else sus,
                                      0 if tap and i > 0 else None, 0 if forced and i > 0 else None)
     exp = expected_notes(res, items)
     rc = case
@@ -97,7 +103,7 @@ def check_table(ctx: Ctx, case) -> None:
     else:
         nt = sum(1 for a, b in zip(seq, seq[1:]) if bin(a).count("1") > 1 or bin(b).count("1") > 1)
     ctx.note_bulk(1024, nt, classes={f"gap-thr={d - thr}" if abs(d - thr) <= 1 else "gap_far": 1024,
-                                     f"flags_t{tap}f{forced}": 1024},
+                                     f"flags_t{tap}f{forced}": 1024, f"sustain_mode_{smode}": 1024},
                   samples=[{"res": res, "thr": thr, "gap": d, "tap": tap, "forced": forced,
                             "lines": lines[2:8],
                             "expected": [[x["tick"], x["hopo"]] for x in exp[1:4]]}])
@@ -120,6 +126,9 @@ def drive_table(ctx: Ctx) -> None:
         for d in distances(res):
             for tap, forced in ((0, 0), (1, 0), (0, 1), (1, 1)):
                 cases.append({"res": res, "d": d, "tap": tap, "forced": forced})
+            for smode in (1, 2):
+                cases.append({"res": res, "d": d, "tap": 0, "forced": 0, "sustain": smode})
+            cases.append({"res": res, "d": d, "tap": 0, "forced": 1, "sustain": 2})
     for i, case in enumerate(cases):
         if i % ctx.nshards != ctx.shard:
             continue
@@ -147,7 +156,12 @@ def _random_tracks(draw, ctx):
         fl = draw(st.integers(0, 7))
         tap = 0 if fl in (5, 7) else None
         forced = 0 if fl in (6, 7, 4) and i > 0 else None
-        items += G.render_note_items(tick, mask, [0] * 5 if mask else 0, tap, forced)
+        sus = draw(st.one_of(st.just(0), st.just(0), st.sampled_from([1, thr, thr + 1, 2 * thr, 10 * res]),
+                             st.integers(0, 3 * thr + 3)))
+        lens = [sus] * 5
+        if mask and draw(st.integers(0, 3)) == 0:
+            lens = [draw(st.sampled_from([0, sus, thr, 1])) for _ in range(5)]
+        items += G.render_note_items(tick, mask, lens if mask else sus, tap, forced)
     return {"res": res, "items": items}
 
 
